@@ -158,6 +158,16 @@ def build_inst(spec):
     else:
         i_val = Const(5, wi)
         o_val = y[:wo]
+    # the bits of y that the instance output does not cover are driven by ordinary statements of ONE (module, domain) pair: the signal is
+    # then driven partly by a cell output and partly by logic
+    if spec.get("use", "inst") in ("inst", "both") and spec["conn"] in ("sig", "slice", "const"):
+        lo, hi = (0, wo) if spec["conn"] != "slice" else (1, 1 + wo)
+        host = nodes[spec["place"]]
+        dom = host.d.comb
+        if lo:
+            dom += y[:lo].eq(a[:lo])
+        if hi < len(y):
+            dom += y[hi:].eq(~a[:len(y) - hi])
     start = spec.get("padslice", 0)
     use = spec.get("use", "inst")
     ports = [a, y, pad]
